@@ -17,6 +17,7 @@ import (
 	"time"
 
 	sdk "github.com/cosmos/cosmos-sdk/types"
+	minttypes "github.com/cosmos/cosmos-sdk/x/mint/types"
 
 	"github.com/bandprotocol/chain/v3/pkg/tss"
 	bandtsstypes "github.com/bandprotocol/chain/v3/x/bandtss/types"
@@ -138,7 +139,8 @@ func (s *session) project() tf.M {
 	tk, bk := w.App.TSSKeeper, w.App.BandtssKeeper
 	st := tf.M{"h": int(s.r.Height), "now": s.rel(s.r.Time)}
 	tpar := tk.GetParams(ctx)
-	st["par"] = tf.M{"period": int(tpar.SigningPeriod), "create": int(tpar.CreationPeriod)}
+	st["par"] = tf.M{"period": int(tpar.SigningPeriod), "create": int(tpar.CreationPeriod),
+		"fx": int(bk.GetParams(ctx).FeePerSigner.AmountOf("uxyz").Int64())}
 	st["fee"] = int(bk.GetParams(ctx).FeePerSigner.AmountOf("uband").Int64())
 	st["current"] = int(bk.GetCurrentGroup(ctx).GroupID)
 	if tr, ok := bk.GetGroupTransition(ctx); ok {
@@ -329,6 +331,9 @@ func (d *Driver) RunScript(sc tf.Script) {
 	if fee > 0 {
 		bp.FeePerSigner = sdk.NewCoins(sdk.NewInt64Coin("uband", fee))
 	}
+	if fx := int64(tf.Int(sc.C, "fx", 0)); fx > 0 {
+		bp.FeePerSigner = bp.FeePerSigner.Add(sdk.NewInt64Coin("uxyz", fx)) // a second denom in the fee
+	}
 	bp.MinTransitionDuration, bp.MaxTransitionDuration = MinDur*s.unit, MaxDur*s.unit
 	bp.RewardPercentage = 0
 	if err := bk.SetParams(r.Ctx, bp); err != nil {
@@ -341,6 +346,14 @@ func (d *Driver) RunScript(sc tf.Script) {
 	r.BeginBlock(10)
 	bals := tf.Sub(sc.C, "bal")
 	for _, p := range d.payers {
+		// plenty of the second fee denom (its money is not modelled, only the acceptance rule)
+		rich := sdk.NewCoins(sdk.NewInt64Coin("uxyz", 1_000_000))
+		if err := w.App.BankKeeper.MintCoins(r.Ctx, minttypes.ModuleName, rich); err != nil {
+			panic(err)
+		}
+		if err := w.App.BankKeeper.SendCoinsFromModuleToAccount(r.Ctx, minttypes.ModuleName, p.Addr, rich); err != nil {
+			panic(err)
+		}
 		if n := tf.Int(bals, p.Name, 0); n > 0 {
 			if err := w.App.BankKeeper.SendCoins(r.Ctx, w.Accts[5].Addr, p.Addr, sdk.NewCoins(sdk.NewInt64Coin("uband", int64(n)))); err != nil {
 				panic(err)
@@ -506,14 +519,34 @@ func (s *session) apply(step tf.M) bool {
 		// environment: governance changes fee_per_signer
 		f := int64(tf.Int(step, "f", 1))
 		bp := bk.GetParams(r.Ctx)
+		x := bp.FeePerSigner.AmountOf("uxyz")
 		bp.FeePerSigner = sdk.NewCoins()
 		if f > 0 {
 			bp.FeePerSigner = sdk.NewCoins(sdk.NewInt64Coin("uband", f))
+		}
+		if x.IsPositive() {
+			bp.FeePerSigner = bp.FeePerSigner.Add(sdk.NewCoin("uxyz", x))
 		}
 		if err := bk.SetParams(r.Ctx, bp); err != nil {
 			return false
 		}
 		s.d.W.Step("SetFee", tf.M{"f": int(f)}, tf.M{"ok": true}, s.project())
+	case "SetFx":
+		// environment: governance adds / removes a second denom in fee_per_signer
+		x := int64(tf.Int(step, "x", 0))
+		bp := bk.GetParams(r.Ctx)
+		u := bp.FeePerSigner.AmountOf("uband")
+		bp.FeePerSigner = sdk.NewCoins()
+		if u.IsPositive() {
+			bp.FeePerSigner = bp.FeePerSigner.Add(sdk.NewCoin("uband", u))
+		}
+		if x > 0 {
+			bp.FeePerSigner = bp.FeePerSigner.Add(sdk.NewInt64Coin("uxyz", x))
+		}
+		if err := bk.SetParams(r.Ctx, bp); err != nil {
+			return false
+		}
+		s.d.W.Step("SetFx", tf.M{"x": int(x)}, tf.M{"ok": true}, s.project())
 	case "SetCanSign":
 		g, b := uint64(tf.Int(step, "g", 1)), tf.Bool(step, "b", true)
 		kg, ok := s.groups[g]
@@ -682,7 +715,11 @@ func RandomScript(rng *rand.Rand, mode string) tf.Script {
 			steps = append(steps, tf.M{"e": "DkgDone", "good": rng.Intn(5) != 0})
 		case x < 40:
 			if mode == "fees" && rng.Intn(2) == 0 {
-				steps = append(steps, tf.M{"e": "SetFee", "f": []int{0, 1, 2, 3, 4}[rng.Intn(5)]})
+				if rng.Intn(3) == 0 {
+					steps = append(steps, tf.M{"e": "SetFx", "x": rng.Intn(2)})
+				} else {
+					steps = append(steps, tf.M{"e": "SetFee", "f": []int{0, 1, 2, 3, 4}[rng.Intn(5)]})
+				}
 			} else {
 				steps = append(steps, tf.M{"e": "SetCanSign", "g": 1 + rng.Intn(3), "b": rng.Intn(2) == 0})
 			}
